@@ -9,33 +9,32 @@ ALWAYS_OK = set()
 
 VARIANTS = {
     # common::Error
-    "InvalidRemainingLength": {"payload": [], "where": ["*decode_async", "*::poll"], "min_sites": 12},
-    "EmptySubscription": {"payload": [], "where": ["::Subscribe::decode_async", "::Unsubscribe::decode_async"], "min_sites": 4},
-    "ZeroPid": {"payload": [], "where": ["<common::types::Pid as core::convert::TryFrom<u16>>::try_from"], "min_sites": 1},
-    "InvalidQos": {"payload": ["tested"], "where": ["common::types::QoS::from_u8", "v3::subscribe::SubscribeReturnCode::from_u8"], "min_sites": 2},
-    "InvalidConnectFlags": {"payload": ["tested"], "where": ["::Connect::decode_with_protocol"], "min_sites": 4},
-    "InvalidConnackFlags": {"payload": ["tested"], "where": ["::Connack::decode_async"], "min_sites": 2},
-    "InvalidConnectReturnCode": {"payload": ["tested"], "where": ["v3::connect::ConnectReturnCode::from_u8"], "min_sites": 1},
-    "InvalidProtocol": {"payload": ["tested", "tested"], "where": ["common::types::Protocol::new"], "min_sites": 1},
-    "UnexpectedProtocol": {"payload": ["tested"], "where": ["::Connect::decode_with_protocol"], "min_sites": 2},
-    "InvalidHeader": {"payload": [], "where": ["::packet::Header::new_with"], "min_sites": 4},
-    "InvalidVarByteInt": {"payload": [], "where": ["common::utils::decode_var_int", "common::utils::var_int_len", "common::utils::total_len",
-                                                   "<v5::types::VarByteInt as core::convert::TryFrom<u32>>::try_from", "*::poll"], "min_sites": 5},
-    "InvalidTopicName": {"payload": ["tested"], "where": ["<common::types::TopicName as core::convert::TryFrom<alloc::string::String>>::try_from"], "min_sites": 1},
-    "InvalidTopicFilter": {"payload": ["tested"], "where": ["<common::types::TopicFilter as core::convert::TryFrom<alloc::string::String>>::try_from"], "min_sites": 1},
-    "InvalidString": {"payload": [], "where": ["common::utils::read_string*", "common::types::Protocol::new*"], "min_sites": 2},
-    "IoError": {"payload": ["kind", "kind"], "where": ["*"], "min_sites": 5},
+    "InvalidRemainingLength": {"payload": [], "where": ["v3::*", "v5::*", "*::poll"], "min_sites": 8},
+    "EmptySubscription": {"payload": [], "where": ["v3::subscribe::*", "v5::subscribe::*"], "min_sites": 4},
+    "ZeroPid": {"payload": [], "where": ["common::types::*", "<common::types::Pid*"], "min_sites": 1},
+    "InvalidQos": {"payload": ["tested"], "where": ["common::types::*", "v3::subscribe::*"], "min_sites": 2},
+    "InvalidConnectFlags": {"payload": ["tested"], "where": ["v3::connect::*", "v5::connect::*"], "min_sites": 2},
+    "InvalidConnackFlags": {"payload": ["tested"], "where": ["v3::connect::*", "v5::connect::*"], "min_sites": 2},
+    "InvalidConnectReturnCode": {"payload": ["tested"], "where": ["v3::connect::*"], "min_sites": 1},
+    "InvalidProtocol": {"payload": ["tested", "tested"], "where": ["common::types::*"], "min_sites": 1},
+    "UnexpectedProtocol": {"payload": ["tested"], "where": ["v3::connect::*", "v5::connect::*"], "min_sites": 2},
+    "InvalidHeader": {"payload": [], "where": ["v3::packet::*", "v5::packet::*"], "min_sites": 2},
+    "InvalidVarByteInt": {"payload": [], "where": ["common::utils::*", "v5::types::*", "<v5::types::*", "*::poll"], "min_sites": 3},
+    "InvalidTopicName": {"payload": ["tested"], "where": ["common::types::*", "<common::types::*"], "min_sites": 1},
+    "InvalidTopicFilter": {"payload": ["tested"], "where": ["common::types::*", "<common::types::*"], "min_sites": 1},
+    "InvalidString": {"payload": [], "where": ["common::utils::*", "common::types::*"], "min_sites": 2},
+    "IoError": {"payload": ["kind", "kind"], "where": ["*"], "min_sites": 4},
     # v5::ErrorV5
-    "InvalidReasonCode": {"payload": ["context", "tested"], "where": ["v5::*::decode_async"], "min_sites": 14},
-    "InvalidSubscriptionOption": {"payload": ["tested"], "where": ["v5::subscribe::Subscribe::decode_async*"], "min_sites": 3},
-    "InvalidPayloadFormat": {"payload": [], "where": ["v5::publish::Publish::decode_async", "v5::connect::LastWill::decode_async"], "min_sites": 2},
-    "InvalidResponseTopic": {"payload": [], "where": ["v5::*Properties::decode_async*"], "min_sites": 2},
-    "InvalidPropertyId": {"payload": ["tested"], "where": ["v5::types::PropertyId::from_u8"], "min_sites": 1},
-    "InvalidPropertyLength": {"payload": ["tested"], "where": ["v5::*Properties::decode_async", "v5::subscribe::Unsubscribe::decode_async"], "min_sites": 15},
-    "InvalidByteProperty": {"payload": ["context", "tested"], "where": ["v5::types::PropertyValue::decode_bool", "v5::*Properties::decode_async"], "min_sites": 2},
-    "DuplicatedProperty": {"payload": ["context"], "where": ["v5::types::PropertyValue::decode_*", "v5::*Properties::decode_async"], "min_sites": 9},
-    "InvalidProperty": {"payload": ["context", "context"], "where": ["v5::*Properties::decode_async", "v5::subscribe::Unsubscribe::decode_async"], "min_sites": 14},
-    "InvalidWillProperty": {"payload": ["context"], "where": ["v5::connect::WillProperties::decode_async"], "min_sites": 1},
+    "InvalidReasonCode": {"payload": ["context", "tested"], "where": ["v5::*"], "min_sites": 9},
+    "InvalidSubscriptionOption": {"payload": ["tested"], "where": ["v5::subscribe::*"], "min_sites": 2},
+    "InvalidPayloadFormat": {"payload": [], "where": ["v5::publish::*", "v5::connect::*"], "min_sites": 2},
+    "InvalidResponseTopic": {"payload": [], "where": ["v5::*"], "min_sites": 2},
+    "InvalidPropertyId": {"payload": ["tested"], "where": ["v5::types::*"], "min_sites": 1},
+    "InvalidPropertyLength": {"payload": ["tested"], "where": ["v5::*"], "min_sites": 10},
+    "InvalidByteProperty": {"payload": ["context", "tested"], "where": ["v5::*"], "min_sites": 2},
+    "DuplicatedProperty": {"payload": ["context"], "where": ["v5::*"], "min_sites": 6},
+    "InvalidProperty": {"payload": ["context", "context"], "where": ["v5::*"], "min_sites": 10},
+    "InvalidWillProperty": {"payload": ["context"], "where": ["v5::connect::*"], "min_sites": 1},
 }
 
 # error raised by each from_u8 table on an unknown byte (None: the table returns Option and the caller raises)
